@@ -111,6 +111,11 @@ def enumerate_cases(tier, rng):
                         yield (mn, shape, suffix, v, variant)
 
 
+# operands written as EXPRESSIONS whose value decides the width: chains of equal-precedence operators group from the left
+EXPRESSION_STATEMENTS = [("lda #10-3-2", "a905"), ("lda 0x1000>>4>>4", "a510"), ("sta 0x2100-0x80-0x80", "8d0020"), ("lda #2*3+4*5", "a91a"), ("lda 0x100-1", "a5ff"),
+                         ("lda 0xff+1", "ad0001"), ("lda.w #1<<4<<4", "a90001"), ("jmp 0x10000-1-0", "4cffff"), ("lda 0x20-0x10+0x100", "ad1001")]
+
+
 def run(tier, seed):
     rng = random.Random(seed)
     cases = list(enumerate_cases(tier, rng))
@@ -129,6 +134,11 @@ def run(tier, seed):
         if len(failures) < 40:
             ident = "bounded/text/" + args[1].replace("E", "e") + ("/" + args[0] if args[1] in SHAPE_CELL else "")
             failures.append({"ident": ident, "script": "b_C01.py", "payload": {"args": list(args)}, "observed": f"`{stmt}`: {why}"})
+    for stmt, want in EXPRESSION_STATEMENTS:
+        res = assemble("*=0x008000\n" + stmt + "\n")
+        got = b"".join(b for a, b in res["blocks"]).hex() if res["status"] == "ok" else f"rejected ({(res['error'] or res['exc'] or '')[:60]})"
+        if got != want:
+            failures.append({"ident": "bounded/text/expression-operand", "script": "b_C01.py", "payload": {"stmt": stmt, "want": want}, "observed": f"`{stmt}`: assembled to {got}, the ISA says {want}"})
     distinct = len({(c[0], c[1], c[2], c[3]) for c in cases})
     return {"evaluations": len(cases), "distinct_nontrivial": distinct, "exhaustive": False,
             "rule": "every non-branch mnemonic of the live table x 24 operand shapes (incl. malformed index combinations) x suffix (none,.b,.w,.l) "
@@ -138,6 +148,10 @@ def run(tier, seed):
 
 
 def replay(payload):
+    if "stmt" in payload:
+        res = assemble("*=0x008000\n" + payload["stmt"] + "\n")
+        got = b"".join(b for a, b in res["blocks"]).hex() if res["status"] == "ok" else "rejected"
+        return {"failed": got != payload["want"], "observed": got, "statement": payload["stmt"]}
     r = check_stmt(tuple(payload["args"]))
     return {"failed": r is not None, "observed": r[2] if r else None, "statement": render(*payload["args"])}
 
